@@ -60,6 +60,9 @@ type ModSpec struct {
 	IdxKeys  []string `json:"idxkeys,omitempty"`
 	BigVal   int      `json:"bigval,omitempty"` // store: permille of large values (size-limit scenarios)
 	Inputs   []InSpec `json:"inputs"`
+	// V selects the behaviour version of the interpreter: committed replay files (regress/, findings/) keep the
+	// programs they were recorded with; 1 adds many-digit numbers, nested keys, empty and overlapping prefixes.
+	V int `json:"v,omitempty"`
 }
 
 func (m *ModSpec) Binary() []byte {
@@ -202,6 +205,9 @@ func (m *simModule) ExecuteNewCall(ctx context.Context, call *wasm.Call, cached 
 		for i := 0; i < n; i++ {
 			r := h.next()
 			key := fmt.Sprintf("k%d", r%8)
+			if spec.V >= 1 && (r>>40)%8 == 0 {
+				key = nestedKeys[(r>>44)%4]
+			}
 			ord := (r >> 8) % 6
 			switch (r >> 16) % 6 {
 			case 0:
@@ -282,7 +288,9 @@ func (m *simModule) ExecuteNewCall(ctx context.Context, call *wasm.Call, cached 
 	return inst, nil
 }
 
-var decimals = []string{"0.25", "-0.5", "1.75", "3", "-2.25", "10.5", "0.125", "-7", "123456789.987654321", "-0.000000000000000001", "1000000000000000000000.5", "0.1"}
+var decimals = []string{"0.25", "-0.5", "1.75", "3", "-2.25", "10.5", "0.125", "-7"}
+var decimalsV1 = []string{"0.25", "-0.5", "1.75", "3", "-2.25", "10.5", "0.125", "-7", "123456789.987654321", "-0.000000000000000001", "1000000000000000000000.5", "0.1"}
+var nestedKeys = []string{"k1a", "k1ab", "k10", "k"}
 var bigints = []string{"1", "-3", "7", "123456789012345678901234567890", "-99999999999999999999", "42", "0", "5"}
 
 func (m *simModule) storeOps(call *wasm.Call, h *hasher) {
@@ -297,7 +305,19 @@ func (m *simModule) storeOps(call *wasm.Call, h *hasher) {
 		if r%3 != 0 {
 			prefix = fmt.Sprintf("k%d", (r>>4)%uint64(max(spec.Keys, 1)))
 		}
+		if spec.V >= 1 {
+			switch (r >> 40) % 16 {
+			case 0:
+				prefix = "" // legal: everything goes
+			case 1, 2:
+				prefix = "k1a"
+			}
+		}
 		call.DoDeletePrefix((r>>12)%6, prefix)
+		if spec.V >= 1 && (r>>48)%4 == 0 {
+			// a second, possibly overlapping prefix in the same block
+			call.DoDeletePrefix((r>>52)%6, []string{"k", "k1", "k1a", "k2"}[(r>>56)%4])
+		}
 	}
 	for i := 0; i < nops; i++ {
 		r := h.next()
@@ -306,15 +326,21 @@ func (m *simModule) storeOps(call *wasm.Call, h *hasher) {
 		x := (r >> 16)
 		iv := int64(x%11) - 5
 		fv := float64(int64(x%33)-16) / 4
-		if (x>>50)%4 == 0 {
+		if spec.V >= 1 && (r>>5)%8 == 0 {
+			key = nestedKeys[(r>>2)%4] // keys that are prefixes of each other
+		}
+		if spec.V >= 1 && (x>>50)%4 == 0 {
 			// many significant bits, still exact under any summation order (multiples of 2^-20 below 2^20):
 			// exercises parsing and formatting without making float addition order-dependent
 			fv = float64(int64((x>>8)%(1<<40))-(1<<39)) / (1 << 20)
 		}
-		if (x>>52)%4 == 0 {
+		if spec.V >= 1 && (x>>52)%4 == 0 {
 			iv = int64((x>>8)%(1<<44)) - (1 << 43)
 		}
 		dec := decimals[x%uint64(len(decimals))]
+		if spec.V >= 1 {
+			dec = decimalsV1[x%uint64(len(decimalsV1))]
+		}
 		bi := bigints[x%uint64(len(bigints))]
 		switch spec.Policy {
 		case "set", "setnx":
